@@ -604,6 +604,22 @@ def clause_read_merge(R, F):
         R.ob(ok, "READ-MERGE", fn.where(), "READ-MERGE|table.%s" % meth,
              "%s does not merge the persisted rows first and the cached rows over them on every path" % meth,
              sample={"rule": "READ-MERGE scan", "fn": fn.name, "disk": scan, "then": "self.cache"})
+        # a cached history whose latest value is None (uncommitted unset) must hide the persisted row:
+        # insert on Some and remove on None, on opposite edges of the latest() test, after the cache iteration starts
+        ins = [c for c in fn.calls() if (c.method or "") == "insert" and not fn.is_cleanup(c.bb) and mem and fn.dominates(mem[0].bb, c.bb)]
+        rem = [c for c in fn.calls() if (c.method or "") == "remove" and not fn.is_cleanup(c.bb) and mem and fn.dominates(mem[0].bb, c.bb)]
+        okr = False
+        for r in rem:
+            for (a, s2) in control_deps(fn).get(r.bb, set()):
+                t = fn.term(a)
+                if t["k"] == "switch" and mentions(origin(fn, t["discr"]), "latest"):
+                    # the insert must be on the other edge of the same switch
+                    for i in ins:
+                        if any(a2 == a and s3 != s2 for (a2, s3) in control_deps(fn).get(i.bb, set())):
+                            okr = True
+        R.ob(okr, "READ-MERGE", fn.where(), "READ-MERGE|table.%s|unset-shadows" % meth,
+             "%s: an uncommitted removal (cached history whose latest value is None) does not remove the persisted row from the scan result: "
+             "the row reappears until the next commit" % meth, sample={"rule": "READ-MERGE scan", "fn": fn.name, "row": "latest()==None => remove(key)"})
         if meth == "get_range" and disk:
             a = show(origin(fn, disk[0].args[1]))
             R.ob("From" in a and "Forward" in a and mentions(origin(fn, disk[0].args[1]), "start_key"), "WIRE", disk[0].where(),
@@ -759,11 +775,16 @@ def clause_engine_commit_clear(R, F):
     """commit only at block boundaries; clear_caches resets LastBlockInfo and wakes waiters before dropping caches"""
     from windowrules import _engine_fn, _err_propagated
     fn = _engine_fn(F, "commit_to_db")
-    req = [c for c in fn.calls() if (c.method or "") == "require_no_waiting_txes" and not fn.is_cleanup(c.bb)]
-    wr = [c for c in fn.calls() if (c.method or "") in ("write_fn", "write_fn_unchecked") and not fn.is_cleanup(c.bb)]
-    R.ob(bool(req) and bool(wr) and all(fn.dominates(req[0].bb, w.bb) for w in wr) and _err_propagated(fn, req[0]), "DOM-before", fn.where(),
-         "DOM-before|commit_to_db|require_no_waiting_txes", "commit_to_db can commit in the middle of a block (validator missing, dropped or late)",
-         sample={"rule": "DOM-before", "fn": "commit_to_db", "a": "require_no_waiting_txes", "b": "db.write_fn(commit_changes)"})
+    import enginerules as ER
+    em = ER.engine_methods(F)
+    sites = []
+    for body in [fn] + F.descendants(fn.id):
+        for c in body.calls():
+            if (c.method or "") in ("write_fn", "write_fn_unchecked") and not body.is_cleanup(c.bb) and ".db" in show(origin(body, c.args[0])):
+                sites.append((body, c))
+    R.ob(bool(sites) and all(ER.validated_at(F, em, {}, body, c.bb) for body, c in sites), "DOM-before", fn.where(),
+         "DOM-before|commit_to_db|require_no_waiting_txes", "commit_to_db can commit in the middle of a block (no validator / waiting-count guard dominates the commit, or its error is dropped)",
+         sample={"rule": "DOM-before", "fn": "commit_to_db", "a": "no-waiting-txes check", "b": "db.write_fn(commit_changes)"})
     fn = _engine_fn(F, "clear_caches")
     wr = [c for c in fn.calls() if (c.method or "") in ("write_fn", "write_fn_unchecked") and not fn.is_cleanup(c.bb)]
     nt = [c for c in fn.calls() if (c.method or "") == "notify_waiters" and not fn.is_cleanup(c.bb)]
